@@ -188,8 +188,9 @@ def units(tier):
                 us.append(Unit("transform-%s-%s-read%d" % (mesh, kind, reads.index(rd)), u_transform, params={"mesh": mesh, "kind": kind, "read": rd, "similar_or_far": True}, key="transform/%s/read%d" % (kind, reads.index(rd)), functions=FUN,
                                bounds="catalogue %s x matrix family '%s' (all parameter values); values read before: %s" % (mesh, kind, {0: "none", 1: "all", 2: "face_normals only", 3: "topology only"}[reads.index(rd)]),
                                max_paths=100, wall_s=300, ob_ms=30000, feas_ms=800, group=False))
-    us.append(Unit("mirror-strip-angles", u_mirror, tiers=("thorough",), params={"mesh": "strip", "axis": 0, "read": ("face_angles",) + tuple(NUMERIC + TOPO)}, key="mirror/angles", functions=FUN + [F + "triangles.angles"],
-                   bounds="catalogue strip, x -> mirror_axis(x) + (3,-2,5) for each coordinate mirror, per-corner face_angles read before", max_paths=50, wall_s=200, ob_ms=30000, feas_ms=800, group=False))
+    if T:
+      us.append(Unit("mirror-strip-angles", u_mirror, tiers=("thorough",), params={"mesh": "strip", "axis": 0, "read": ("face_angles",) + tuple(NUMERIC + TOPO)}, key="mirror/angles", functions=FUN + [F + "triangles.angles"],
+                   bounds="catalogue strip, x -> mirror_axis(x) + (3,-2,5) for each coordinate mirror, per-corner face_angles read before", max_paths=50, wall_s=400, ob_ms=30000, feas_ms=800, group=False))
     for mesh in ("tet", "strip"):
         for how in ("setitem", "iadd", "reassign", "faces", "reassign-hashed") + (("density",) if mesh == "tet" else ()):
             for rd in (reads[1],) if not T else reads[:2]:
